@@ -94,6 +94,8 @@ class NumpyMixin:
 
     def trunc(self, x):
         x = to_z3(x, "real")
+        if "trunc" in getattr(self, "abstract", ()):
+            return ufunc("TRUNC", R, I)(x)
         return z3.If(x >= 0, z3.ToInt(x), -z3.ToInt(-x))
 
     def root(self, st, ref):
